@@ -698,6 +698,7 @@ def _grams_for(prop, tier, seed):
         g += ops[::3] if q else ops
         sr = F.fam_skiprules(tier)
         g += sr[1::5] if q else sr
+        g += [x for x in F.fam_odd(tier) if x["id"] in ("odd4", "odd5")]      # check-path repetitions; rules named like built-ins
         return g
     raise KeyError(prop)
 
